@@ -43,6 +43,7 @@ type FuncContract struct {
 	Candidates []*Clause
 	PerConst   []string
 	Measure    *Clause
+	AllocSite  *Clause // per-event bound on the bytes requested at any allocation site (in the end-of-path state)
 	Assigns    []string
 	Lets       []*LetDef
 	Ghost      bool // the function updates the ghost handler-error state
@@ -298,6 +299,12 @@ func (cf *ContractFile) directive(cur **FuncContract, pkg, body, path string, ln
 				fc.PerConst = append(fc.PerConst, t)
 			}
 		}
+	case "allocsite":
+		c, err := mkClause(rest)
+		if err != nil {
+			return err
+		}
+		fc.AllocSite = c
 	case "measure":
 		c, err := mkClause(rest)
 		if err != nil {
